@@ -140,6 +140,19 @@ def check_g4(pid, tier):
 
             crashes.append(f"codec same-name: {type(e).__name__}: {e}\n{traceback.format_exc()[-600:]}")
     if pid == "C03":
+        try:
+            from . import c17 as _c17e
+
+            for r in runner.run_pool(_c17e.engine_task, [(pid, T_, MD_) for (T_, MD_) in _c17e.ENGINE_POINTS], chunks=1):
+                if "crash" in r:
+                    crashes.append(r["crash"] + " @ " + r["payload"] + "\n" + r["trace"][-500:])
+                else:
+                    obs.extend(r["obligations"])
+        except Exception as e:  # noqa
+            import traceback
+
+            crashes.append(f"engine points: {type(e).__name__}: {e}\n{traceback.format_exc()[-600:]}")
+    if pid == "C03":
         # "the very class named in the annotation, never a look-alike": identity obligations on same-named classes
         # of different modules and on a generic dataclass specialised with a local class
         try:
